@@ -43,7 +43,8 @@ Inner == TStruct(<<Fld("X", <<"x">>, "", T("int64")), Fld("Y", <<"y", "z">>, "",
 \* positional structs: fields bound to list positions, alone and next to a named field
 Pos    == TStruct(<<Fld("From", <<"0">>, "", T("int64")), Fld("To", <<"1">>, "", T("int64"))>>)
 PosMix == TStruct(<<Fld("At", <<"1">>, "", T("dur")), Fld("Kind", <<"kind">>, "", T("string"))>>)
-Prims == {T("bool"), T("int8"), T("int64"), T("uint64"), T("float64"), T("string"), T("dur")}
+\* "re" is *regexp.Regexp: packed as the pattern's exact source text, compiled again by Unpack
+Prims == {T("bool"), T("int8"), T("int64"), T("uint64"), T("float64"), T("string"), T("dur"), T("re")}
 FieldTypes == Prims \cup {TPtr(T("int64")), TPtr(Inner), TSlice(T("int64")), TSlice(Inner), TArr(T("uint64")), TMap(T("string")), TMap(Inner), Inner, Pos, PosMix, TPtr(Pos)}
 
 \* ---------- values ----------
@@ -75,8 +76,9 @@ Vals(t) ==
     [] t.k = "float64" -> {V("float", "-1.5")}
     [] t.k \in {"int16", "int32", "int", "uint8", "uint16", "uint32", "uint", "float32"} -> {V(NumClass(t.k), "7")}
     [] t.k \in {"ustr", "uany"} -> {V("string", "ok")}          \* named string types with a custom Unpack method
-    [] t.k = "string" -> {V("string", ""), V("string", "a$b.c,d{e}")}
+    [] t.k = "string" -> {V("string", ""), V("string", "a$b.c,d{e}"), V("string", " pad\t")}
     [] t.k = "dur" -> {V("dur", "1500000000")}                       \* nanoseconds; text "1.5s"
+    [] t.k = "re"  -> {V("re", "a.*b"), V("re", " ^x, $\t"), NilV("re")}   \* white space is part of a pattern
     [] t.k = "ptr" -> {NilV("ptr")} \cup {[k |-> "ptr", p |-> x] : x \in Vals(t.e)}
     [] t.k = "slice" -> {NilV("slice")} \cup {[k |-> "slice", xs |-> <<x, y>>] : x, y \in Vals(t.e)}
     [] t.k = "array" -> {[k |-> "array", xs |-> <<x, y>>] : x, y \in Vals(t.e)}
@@ -115,7 +117,7 @@ Pack(t, v) ==
   IF "nil" \in DOMAIN v THEN (IF v.k \in {"slice", "map"} THEN N(<<>>, <<>>) ELSE Nil)   \* nil slice / nil map: an empty config
   ELSE CASE t.k = "bool" -> PB(v.v)
     [] t.k \in NumKinds -> PN(v.v)
-    [] t.k \in {"string", "ustr", "uany"} -> PS(v.v)
+    [] t.k \in {"string", "ustr", "uany", "re"} -> PS(v.v)
     [] t.k = "dur" -> PS(DurText(v.v))
     [] t.k = "ptr" -> Pack(t.e, v.p)
     [] t.k \in {"slice", "array"} -> N(<<>>, [i \in 1..Len(v.xs) |-> Pack(t.e, v.xs[i])])
@@ -158,7 +160,7 @@ PackFields(t, v, i, acc) ==
 TextOf(t, v) == CASE t.k = "bool" -> (IF v.v THEN "true" ELSE "false")
                   [] t.k = "dur" -> DurText(v.v)
                   [] OTHER -> v.v
-IsPrimT(t) == t.k \in {"bool", "string", "dur", "ustr", "uany"} \cup NumKinds
+IsPrimT(t) == t.k \in {"bool", "string", "dur", "re", "ustr", "uany"} \cup NumKinds
 \* struct{F0 t0; F1 t1} with exactly one inline map[string]string: what the map holds after Unpack
 RoundTrip(D, t, v) ==
   LET im == {i \in 1..Len(t.f) : t.f[i].mode = "inline" /\ t.f[i].t.k = "map"} IN
